@@ -8,7 +8,7 @@ PX = UnitEnum.PIXEL
 
 
 def layout(kind):
-    """0 None; 1 relative layout A; 2 relative layout B (equal-valued copy of A is kind 3); 4 absolute (px); 5 alignment only"""
+    """0 None; 1 relative layout A; 2 relative layout B (equal-valued copy of A is kind 3); 4 absolute (px); 5 alignment only; 6 A + default alignment spelled out; 7 A + right/top"""
     if kind == 0:
         return None
     if kind == 1:
@@ -18,6 +18,10 @@ def layout(kind):
                       padding=Padding(Size(1, P), Size(2, P), Size(3, P), Size(4, P)), alignment=Alignment(H.CENTER, V.TOP))
     if kind == 3:
         return Layout(origin=Point(Size(10, P), Size(10, P)), extent=Stretch(Size(30, P), Size(20, P)))
+    if kind == 6:  # A's box with the DFXP default alignment spelled out (unequal to A, same region attributes)
+        return Layout(origin=Point(Size(10, P), Size(10, P)), extent=Stretch(Size(30, P), Size(20, P)), alignment=Alignment(H.START, V.BOTTOM))
+    if kind == 7:  # A's box with another alignment
+        return Layout(origin=Point(Size(10, P), Size(10, P)), extent=Stretch(Size(30, P), Size(20, P)), alignment=Alignment(H.RIGHT, V.TOP))
     if kind == 4:
         return Layout(origin=Point(Size(64, PX), Size(36, PX)), extent=Stretch(Size(320, PX), Size(72, PX)))
     return Layout(alignment=Alignment(H.RIGHT, V.BOTTOM))
